@@ -3,12 +3,14 @@
 `winapi._parse_event_buffer` (in a child process behind import shims) against WD.Dec.decodeIno /
 decodeWin on encoded buffers — all record sequences of a small scope + random buffers — and as a
 round trip against the harness's own encoder;
-(b) the Windows and FSEvents emitters' `queue_events` fed with native batches rendered by
-documented-semantics simulators from real operation histories on a scratch directory, judged by
-C01's replay predicate and C03's per-operation contract (see translation_runs)."""
+(b) the Windows and FSEvents emitters' `queue_events` (child processes behind import shims) fed with
+the native batches that the Lean documented-semantics simulators render for real operation histories
+on a scratch directory, compared event for event with the Lean emitter models and judged by C01's
+replay predicate (harness/c20_translation.py)."""
 from __future__ import annotations
 
 import itertools
+import json
 import os
 import struct
 import subprocess
@@ -140,12 +142,11 @@ def run(res, tier, lean, proof_breaks=(), build_log=""):
                        "(round trip) and vs the Lean decoder; (b) Windows / FSEvents emitters through import shims on native "
                        "batches from documented-semantics simulators; non-trivial = more than one record / an event delivered")
     bad = run_decoders(res, lean, r, thorough)
+    import c20_translation
     try:
-        import c20_translation
-        tbad = c20_translation.translation_runs(res, r, thorough)
-    except ImportError:
-        tbad = []
-        res.notes["translation_layers"] = "not run (harness/c20_translation.py absent)"
+        tbad = c20_translation.translation_runs(res, lean, r, thorough)
+    except c20_translation.Divergence as e:
+        raise RuntimeError(f"scratch file system and WD.Pipe.FS disagree (harness/model fault, not a verdict): {e}")
     if bad:
         kinds = {}
         for b in bad:
@@ -161,8 +162,22 @@ def run(res, tier, lean, proof_breaks=(), build_log=""):
                               f"domain (truncated / malformed): implementation {i!r}, model {e!r}",
                               {"request": line, "implementation": i, "model": e, "failing_buffers": len(bs)}, no_input=True,
                               signature="c20-" + kind)
+    # translation layers: concrete failures (exception, stop flag, replay, depth) first; a broken tie between a model
+    # and its emitter is reported as such only when no concrete failure of that layer was found
+    by_sig = {}
     for v in tbad:
-        res.violation(v["what"], v["replay"], signature=v["signature"])
+        cur = by_sig.get(v["signature"])
+        if cur is None or len(json.dumps(v["replay"], default=repr)) < len(json.dumps(cur["replay"], default=repr)):
+            by_sig[v["signature"]] = v
+    known_sigs = {k.get("signature") for k in common.load_known()}
+    concrete_layers = {v["signature"].split("-")[1] for v in by_sig.values() if not v.get("tie") and v["signature"] not in known_sigs}
+    for sig, v in sorted(by_sig.items()):
+        if v.get("tie"):
+            if sig.split("-")[1] in concrete_layers:
+                continue
+            res.violation(v["what"], v["replay"], no_input=True, signature=sig)
+        else:
+            res.violation(v["what"], v["replay"], signature=sig)
 
 
 def replay(res, path, lean):
